@@ -9,7 +9,21 @@ PID = "C12"
 LEVEL = "proof"
 LEAN_TARGETS = ["SyneTune.Props.C12"]
 DRIVER = "SyneTune/Drivers/Loop.lean"
-THEOREMS = []
+THEOREMS = [
+    "SyneTune.C12.exit_criterion",
+    "SyneTune.C12.exit_criterion_clock",
+    "SyneTune.C12.exit_test",
+    "SyneTune.C12.exit_break",
+    "SyneTune.C12.exit_only",
+    "SyneTune.C12.no_start_after",
+    "SyneTune.C12.no_start_after_wait",
+    "SyneTune.C12.overshoot",
+    "SyneTune.C12.overshoot_before",
+    "SyneTune.C12.nothing_running",
+    "SyneTune.C12.exception_enters_finally",
+    "SyneTune.C12.results_stored",
+    "SyneTune.C12.counters",
+]
 TRUSTED = [
     "hand-written model lean/SyneTune/Model/{Tuner,TuningStatus,StoppingCriterion}.lean tied to /repo by the loop correspondence stream",
     "Python harness harness/streams/loop.py (recorder callback, per-instance wrappers, scripted backend, clock stub)",
